@@ -9,7 +9,7 @@ import torch
 
 from tjv.rt import gen
 from tjv.rt.aggs import make_agg
-from ._autojac import AGG_TOL, choose_inputs, expected_update, n_rows, set_pregrads
+from ._autojac import AGG_TOL, choose_inputs, expected_update, n_rows, selection_ambiguous, set_pregrads
 
 RULE = ("random autograd programs (tjv.rt.gen.build: DAGs with reuse, unused leaves, leaves not requiring "
         "grad, 0-d..4-d shapes, multi-output unbind) x aggregator x parallel_chunk_size x dtype x pre-existing "
@@ -27,7 +27,7 @@ AGGS = [
     {"name": "Sum"},
     {"name": "UPGrad"},
     {"name": "UPGrad", "pref": "distinct"},
-    {"name": "Krum", "f": 0, "k": 1},
+    {"name": "Krum", "f": 0, "k": 2},
     {"name": "TrimmedMean", "b": 1},
 ]
 
@@ -123,6 +123,8 @@ def _run_case(case):
     if dtype == torch.float32:
         rtol, atol = max(rtol, 3e-4), max(atol, 3e-4)
     nontrivial = J.shape[0] >= 2 and J.shape[1] >= 2 and bool((J != 0).any())
+    if selection_ambiguous(case["agg"], J):  # ties are excluded: the selected rows depend on rounding
+        return {"ok": True, "sig": sig, "nontrivial": False, "note": "Krum scores tie"}
     sel = {id(p1.grad_leaves[i]): k for k, i in enumerate(idx)}
     for li, (t1, t2) in enumerate(zip(p1.leaves, p2.leaves)):
         pre = before[li]
